@@ -137,9 +137,11 @@ def pipeline(name, gen_cmd, stdin_path=None):
 class Tally:
     """Aggregates responses of the harness|driver pipeline."""
 
-    def __init__(self, pid, known, only_oracles=None):
+    def __init__(self, pid, known, only_oracles=None, excluded=None):
         self.pid = pid
         self.only_oracles = only_oracles
+        self.excluded = set(excluded or [])   # classes outside the property's input domain
+        self.excluded_hits = {}
         self.known = known          # list of known-finding dicts for this property
         self.known_classes = {k["class"] for k in known if k.get("status", "open") == "open"}
         self.evaluations = 0
@@ -199,9 +201,13 @@ class Tally:
                     self.disagreements.append((stream, r["id"]))
                 if bad:
                     hit = [c for c in classes if c in self.known_classes]
+                    out = [c for c in classes if c in self.excluded]
                     if hit:
                         for c in hit:
                             self.known_hits[c] = self.known_hits.get(c, 0) + 1
+                    elif out:
+                        for c in out:
+                            self.excluded_hits[c] = self.excluded_hits.get(c, 0) + 1
                     else:
                         self.violations.append((stream, r["id"], bad))
                 if len(self.samples) < 6:
